@@ -328,7 +328,7 @@ def class_blind(ctx, chk, ci):
                             helper = g
                             break
                     if helper is not None:
-                        hp = [a_.arg for a_ in helper.node.args.args if a_.arg not in ("self", "cls")]
+                        hp = [a_.arg for a_ in helper.node.args.args if helper.cls is None or a_.arg not in ("self", "cls")]
                         idx = p.args.index(n)
                         if idx < len(hp):
                             pn = hp[idx]
